@@ -728,10 +728,36 @@ Lemma time_step_loop_halted : forall fuel s, halted s = true -> time_step_loop c
 Proof. intros fuel s H. destruct fuel; simpl; rewrite H; reflexivity. Qed.
 Lemma commit_resume_halted : forall fuel l s, halted s = true -> commit_resume cfg fuel l s = s.
 Proof. intros fuel l s H. destruct l; simpl; [reflexivity | rewrite H; reflexivity]. Qed.
+Lemma phase_pass_halted : forall fuel ph s, halted s = true -> phase_pass cfg fuel ph s = s.
+Proof. intros fuel ph s H. unfold phase_pass. rewrite H. reflexivity. Qed.
 Lemma advance_loop_halted : forall fuel t s, halted s = true -> advance_loop cfg fuel t s = s.
 Proof. intros fuel t s H. destruct fuel; simpl; rewrite H; reflexivity. Qed.
 Lemma start_all_halted : forall fuel fb l s, halted s = true -> start_all cfg fuel fb l s = s.
 Proof. intros fuel fb l s H. destruct l; simpl; [reflexivity | rewrite H; reflexivity]. Qed.
+
+Lemma phase_loop_S : forall n s, phase_loop cfg (S n) s =
+  if halted s then s else
+  if top_matches false false s then
+    let s1 := advance_micro_tick cfg (S n) s in
+    if halted s1 then s1 else phase_loop cfg n (micro_end s1)
+  else s.
+Proof. reflexivity. Qed.
+Lemma time_step_loop_S : forall n s, time_step_loop cfg (S n) s =
+  if halted s then s else
+  if top_matches true false s then
+    time_step_loop cfg n (phase_pass cfg (S n) AFTER (phase_pass cfg (S n) DURING (phase_pass cfg (S n) BEFORE s)))
+  else s.
+Proof. reflexivity. Qed.
+Lemma advance_loop_S : forall n target s, advance_loop cfg (S n) target s =
+  if halted s then s else
+  if clock_less (s_now s) target then
+    match s_queue s with
+    | [] => set_time target s
+    | e :: _ => if clock_more (e_time e) target then set_time target s
+                else advance_loop cfg n target (advance_event cfg (S n) s)
+    end
+  else s.
+Proof. reflexivity. Qed.
 
 Hypothesis Hc0 : s_readonly (fst c0) = false.
 
@@ -836,7 +862,7 @@ Lemma phase_loop_reach : forall fuel s,
             /\ s_phase (phase_loop cfg fuel s) = s_phase s /\ s_now (phase_loop cfg fuel s) = s_now s
             /\ (nwb (s_log s) = true -> nwb (s_log (phase_loop cfg fuel s)) = true))).
 Proof.
-  induction fuel as [|n IH]; intros s R Pre; simpl.
+  induction fuel as [|n IH]; intros s R Pre; [simpl | rewrite phase_loop_S].
   - destruct (halted s) eqn:H.
     + exists []. split; [exact R|]. split; [left; exact H | left; exact H].
     + destruct (top_matches false false s) eqn:Tm.
@@ -850,7 +876,7 @@ Proof.
           right. repeat split; try apply Hc; auto. }
       assert (Pre' : halted s = true \/ calm false s) by (destruct Pre as [Hx|Hx]; [discriminate | right; exact Hx]).
       destruct (advance_micro_tick_reach (S n) s R Pre') as (stk1 & R1 & S1 & Q1 & C1).
-      set (s1 := advance_micro_tick cfg (S n) s) in *.
+      cbv zeta. set (s1 := advance_micro_tick cfg (S n) s) in *.
       destruct (halted s1) eqn:H1.
       * exists stk1. split; [exact R1|]. split; [left; exact H1 | left; exact H1].
       * destruct S1 as [Hh|Hs]; [simpl in Hh; congruence | simpl in Hs; subst stk1].
@@ -885,7 +911,7 @@ Proof.
   - exists []. split; [exact R|]. split; [left; exact H | left; exact H].
   - destruct Pre as [Hh|((Hr & Hro) & Nw & G)]; [congruence|].
     assert (R1 : reach (phase_begin ph s, [])).
-    { eapply TR_step; [exact R|]. apply TS_phase; try assumption. destruct ph; exact G. }
+    { eapply TR_step; [exact R|]. apply TS_phase; assumption. }
     destruct (phase_begin_fields ph s) as (F1 & F2 & F3 & F4 & F5 & F6 & F7 & F8).
     assert (Pre1 : halted (phase_begin ph s) = true \/ calm false (phase_begin ph s)) by (right; split; congruence).
     destruct (phase_loop_reach fuel _ R1 Pre1) as (stk' & R2 & S2 & Q2).
@@ -902,7 +928,7 @@ Lemma time_step_loop_reach : forall fuel s,
             /\ s_phase (time_step_loop cfg fuel s) = AFTER /\ top_matches true false (time_step_loop cfg fuel s) = false
             /\ s_now (time_step_loop cfg fuel s) = s_now s)).
 Proof.
-  induction fuel as [|n IH]; intros s R Pre; simpl.
+  induction fuel as [|n IH]; intros s R Pre; [simpl | rewrite time_step_loop_S].
   - destruct (halted s) eqn:H.
     + exists []. split; [exact R|]. split; [left; exact H | left; exact H].
     + destruct (top_matches true false s) eqn:Tm.
@@ -923,20 +949,20 @@ Proof.
                   /\ (halted (time_step_loop cfg n x) = true \/ False)).
       { intros x k Rx Hx. rewrite time_step_loop_halted by exact Hx. exists k. split; [exact Rx|]. split; left; exact Hx. }
       destruct Q1 as [H1|(Hc1 & Nw1 & Ph1 & Tm1 & Now1)].
-      { unfold phase_pass at 1 2 3. fold s1. rewrite H1. unfold phase_pass at 1 2 3. rewrite H1.
+      { rewrite (phase_pass_halted (S n) DURING s1 H1), (phase_pass_halted (S n) AFTER s1 H1).
         destruct (Stop s1 k1 R1 H1) as (k' & Rk & Sk & [Hk|[]]). exists k'. split; [exact Rk|]. split; [exact Sk | left; exact Hk]. }
       destruct S1 as [Hh|Hs]; [simpl in Hh | simpl in Hs; subst k1].
-      { unfold phase_pass at 1 2 3. fold s1. rewrite Hh. unfold phase_pass at 1 2 3. rewrite Hh.
+      { rewrite (phase_pass_halted (S n) DURING s1 Hh), (phase_pass_halted (S n) AFTER s1 Hh).
         destruct (Stop s1 k1 R1 Hh) as (k' & Rk & Sk & [Hk|[]]). exists k'. split; [exact Rk|]. split; [exact Sk | left; exact Hk]. }
       (* DURING *)
       destruct (phase_pass_reach (S n) DURING s1 R1) as (k2 & R2 & S2 & Q2);
         [right; repeat split; try apply Hc1; assumption|].
       set (s2 := phase_pass cfg (S n) DURING s1) in *.
       destruct Q2 as [H2|(Hc2 & Nw2 & Ph2 & Tm2 & Now2)].
-      { unfold phase_pass at 1. fold s2. rewrite H2.
+      { rewrite (phase_pass_halted (S n) AFTER s2 H2).
         destruct (Stop s2 k2 R2 H2) as (k' & Rk & Sk & [Hk|[]]). exists k'. split; [exact Rk|]. split; [exact Sk | left; exact Hk]. }
       destruct S2 as [Hh|Hs]; [simpl in Hh | simpl in Hs; subst k2].
-      { unfold phase_pass at 1. fold s2. rewrite Hh.
+      { rewrite (phase_pass_halted (S n) AFTER s2 Hh).
         destruct (Stop s2 k2 R2 Hh) as (k' & Rk & Sk & [Hk|[]]). exists k'. split; [exact Rk|]. split; [exact Sk | left; exact Hk]. }
       (* AFTER *)
       destruct (phase_pass_reach (S n) AFTER s2 R2) as (k3 & R3 & S3 & Q3);
@@ -1050,7 +1076,7 @@ Lemma advance_loop_reach : forall fuel target s,
   reach (s, []) -> rest_ok s ->
   exists stk', reach (advance_loop cfg fuel target s, stk').
 Proof.
-  induction fuel as [|n IH]; intros target s R Pre; simpl.
+  induction fuel as [|n IH]; intros target s R Pre; [simpl | rewrite advance_loop_S].
   - destruct (halted s) eqn:H; [exists []; exact R|].
     destruct Pre as [Hh|((Hr & Hro) & Nw & Ph)]; [congruence|].
     destruct (clock_less (s_now s) target) eqn:Cl; [|exists []; exact R].
